@@ -233,6 +233,28 @@ def run_optable(ctx, rep_, F):
                 "but the run-time operators reject the boxed form (e.g. Add(int?, int), lt(int?, int))", s.get("us") or s.get("sp"), fn=f.path,
                 key="C02.optional-rep|%s|#%d" % (mir.short(f.path), n))
 
+    # ---- `a ?= b` is an assignment ------------------------------------------------------------------
+    # unwrap_into stores b into a whenever a is nil: the checker may accept it only when b's kind is a's own kind
+    # (the operator table treats it like a comparison, which is looser: int? ?= float would put a float into an int variable).
+    n_unwrap = 0
+    if "Unwrap" in ops:
+        base = list(NATIVE)
+        for l in base:
+            for r in base:
+                for lk, rk in ((("Opt", l), r), (("Opt", l), ("Opt", r)), (l, r)):
+                    st = T.static("Unwrap", lk, rk)
+                    somes = {k for (tag, k, dd) in st if tag == "Some"}
+                    if not somes:
+                        continue
+                    n_unwrap += 1
+                    if l != r:
+                        rep_.ob("C02.unwrap-assign", "`%s ?= %s` is accepted only between operands of one kind" % (kname(lk), kname(rk)), "violated",
+                                "the type checker accepts it (result %s); at run time the %s value is stored into a variable declared %s" % (sorted(somes), kname(r), kname(lk)),
+                                None, fn="compiler::ast::type::TypeLayout::get_output_type", key="C02.unwrap-assign|%s|%s" % (kname(lk), kname(rk)))
+        rep_.ob("C02.unwrap-assign", "`a ?= b` is accepted by the operator table only when both operands have the same kind (%d accepted cells)" % n_unwrap,
+                "ok", "", None, key="C02.unwrap-assign|summary")
+        rep_.floor("C02.unwrap-assign accepted cells", n_unwrap, 5)
+
     # ---- unary operators -----------------------------------------------------------------------
     sn = F.fn("compiler::ast::type::TypeLayout::supports_negate")
     if sn is None:
